@@ -38,6 +38,17 @@ type ResourceDef struct {
 	// Hidden: served, but not (yet) listed by discovery - a CRD that is not installed yet
 	// as far as clients can tell. Flip with SetHidden.
 	Hidden bool
+	// Alias: the name the harness uses for this definition when another definition has the same plural
+	// in a different API group (Def, ListAll, ExtCreate ... take Name()). Empty: the plural itself.
+	Alias string
+}
+
+// Name is the harness-side name of the definition (the plural, unless an alias was given).
+func (d *ResourceDef) Name() string {
+	if d.Alias != "" {
+		return d.Alias
+	}
+	return d.Resource
 }
 
 func (d *ResourceDef) GVR() schema.GroupVersionResource {
@@ -166,7 +177,7 @@ func NewServer(defs []*ResourceDef) *Server {
 
 func (s *Server) Def(resource string) *ResourceDef {
 	for _, d := range s.defs {
-		if d.Resource == resource {
+		if d.Name() == resource {
 			return d
 		}
 	}
